@@ -258,6 +258,7 @@ pub proof fn lemma_esds_flat(b: EsdsBox)
     assert(esds_flat_pre(b, 8) =~= esds_bytes(b));
 }
 
+#[verifier::rlimit(150)]
 pub proof fn lemma_esds_roundtrip(d: Seq<u8>, p: int, b: EsdsBox)
     requires 0 <= p, esds_encodable(b)
     ensures esds_wf(wr(d, p, esds_bytes(b)), p + 8, 39), esds_at(wr(d, p, esds_bytes(b)), p + 8, 39, b),
@@ -360,6 +361,7 @@ pub proof fn lemma_zeros_step(n: nat)
     broadcast use group_be_bytes, lemma_be_bytes_len;
     assert(be_bytes(0, 4) =~= zeros(4));
 }
+#[verifier::rlimit(150)]
 pub proof fn lemma_hdlr_roundtrip(d: Seq<u8>, p: int, b: HdlrBox)
     requires 0 <= p, hdlr_wire(b)
     ensures hdlr_at(wr(d, p, hdlr_bytes(b)), p + 8, b), hdr_at(wr(d, p, hdlr_bytes(b)), p, hdlr_len(b) as u64, 0x68646c72)
@@ -409,6 +411,7 @@ pub proof fn lemma_avcc_hdr(d: Seq<u8>, p: int, b: AvcCBox)
     lemma_rd4(d, p, Seq::<u8>::empty(), avcc_len(b) as nat, all);
 }
 
+#[verifier::rlimit(150)]
 pub proof fn lemma_avc1_roundtrip(d: Seq<u8>, p: int, b: Avc1Box)
     requires 0 <= p, avc1_wire(b), b.avcc.length_size_minus_one <= 3
     ensures avc1_at(wr(d, p, avc1_bytes(b)), p + 8, avc1_len(b) as u64, b), hdr_at(wr(d, p, avc1_bytes(b)), p, avc1_len(b) as u64, 0x61766331)
@@ -463,6 +466,7 @@ pub proof fn lemma_avc1_roundtrip(d: Seq<u8>, p: int, b: Avc1Box)
 }
 
 pub open spec fn mp4a_encodable(b: Mp4aBox) -> bool { mp4a_wire(b) && (b.esds matches Some(e) ==> esds_encodable(e)) }
+#[verifier::rlimit(150)]
 pub proof fn lemma_mp4a_roundtrip(d: Seq<u8>, p: int, b: Mp4aBox)
     requires 0 <= p, mp4a_encodable(b)
     ensures mp4a_at(wr(d, p, mp4a_bytes(b)), p + 8, mp4a_len(b) as u64, b), hdr_at(wr(d, p, mp4a_bytes(b)), p, mp4a_len(b) as u64, 0x6d703461)
@@ -544,6 +548,7 @@ pub open spec fn stsd_muxed_avc(b: StsdBox) -> bool { b.avc1 is Some && b.hev1 i
 pub open spec fn stsd_muxed_aac(b: StsdBox) -> bool {
     b.mp4a is Some && b.avc1 is None && b.hev1 is None && b.vp09 is None && b.tx3g is None && mp4a_encodable(b.mp4a->Some_0)
 }
+#[verifier::rlimit(150)]
 pub proof fn lemma_stsd_roundtrip(d: Seq<u8>, p: int, b: StsdBox)
     requires 0 <= p, stsd_wire(b), stsd_muxed_avc(b) || stsd_muxed_aac(b)
     ensures stsd_at(wr(d, p, stsd_bytes(b)), p + 8, stsd_norm(b)), hdr_at(wr(d, p, stsd_bytes(b)), p, stsd_len(b) as u64, 0x73747364)
